@@ -19,7 +19,7 @@ from harness import common as C
 RULE = ('histories over the alphabet {read_x, read_y, read_r, read_t, crop, pad1, pad21, padshape0, mask, mask_r, fill, spike_clip, '
         'remove_piston, remove_tiptilt, remove_power, recenter, latcal2, latcal037, strip_latcal, filter, exact_xy, exact_x, pvr, slices, '
         'copy, psd} by prefix-shared DFS: quick = length 3 over 21 of the operations on 1 configuration and length 2 over all 26 on 12 more; '
-        'thorough = length 4 on 1, length 3 on 4, length 2 on the others, length 5 over the 11 coordinate-relevant operations on 1; '
+        'thorough = length 4 on 1, length 3 on 4, length 2 on the others, length 5 over 9 coordinate-relevant operations on 1; '
         'configurations = shape in {8x8, 9x7, 12x9, 7x10, 7x7} x invalid pattern in {none, circular, ragged edge, interior dropouts, mixed '
         'NaN/+inf/-inf} x dx in {1, 0.37}; dx = 0 (constructor without lateral calibration) with length-2 histories over the operations '
         'that do not divide by dx; memory layouts: data Fortran-ordered / a transposed view / strided / negatively strided x every invalid '
@@ -1026,7 +1026,7 @@ def correspondence(ctx):
     run.flush()
     if ctx.thorough:
         for cfg in mid[:1]:
-            _dfs(run, cfg, make_obj(cfg), [], [], COORD_ALPHABET, 5)
+            _dfs(run, cfg, make_obj(cfg), [], [], [op for op in COORD_ALPHABET if op not in ('filter', 'exact_xy')], 5)
             run.flush()
     # random long histories with value-level comparison at every step
     nrand = ctx.scale(80, 600)
